@@ -109,8 +109,12 @@ def gen_window(rng, world, country, kind=None):
     if kind == "none":
         return None, None
 
+    out_dates = sorted({W.parse_ts(r["timestamp"]).date() for _, t, r in W.all_rows(world) if t != "IN"})
+
     def pick():
         d = rng.choice(dates)
+        if out_dates and rng.random() < 0.3:
+            return rng.choice(out_dates)  # a bound exactly on the (written) calendar date of a withdrawal
         k = rng.random()
         if k < 0.3:
             return d
